@@ -215,6 +215,18 @@ def finish(chk, prop, mfail, tdis, problems, pr):
                       "property %s: %s\n%s\n%s" % (prop, why, detail[:1200], replay_text(t, ops, i)))
     chk.cov["monitor_failures"] = len(mfail)
     chk.cov["disagreements_checked"] = len(tdis)
+    if not mfail and tdis:
+        # SEARCH STEP: the correspondence broke and no monitor fired on the histories as generated.  A call that answers
+        # differently (an insert accepted that should be refused, ...) often becomes visible one or two calls later only:
+        # continue the first disagreeing histories on the implementation - every tree outside the document is put into
+        # it, every attribute handle is offered to the document element, everything is read - and apply the monitors.
+        found = search_continuations(chk, prop, tdis)
+        if found:
+            t, ops, i, why, detail = found
+            chk.violation("hist_%s" % lib.enc(" ".join(ops[:i]))[-70:],
+                          "property %s: %s\n%s\n%s" % (prop, why, detail[:1200], replay_text(t, ops, i)))
+            chk.cov["monitor_failures"] = 1
+            return
     if not mfail:
         if tdis:
             t, ops, i, why, a, m = tdis[0]
@@ -222,6 +234,54 @@ def finish(chk, prop, mfail, tdis, problems, pr):
                           % (len(tdis), why, i, a, m, replay_text(t, ops, i)), no_input=True)
         elif problems or not pr["ok"]:
             X.proof_violation(chk, prop, pr, problems, chk.cov["evaluations"])
+
+
+SEARCH_FLAGS = {"C12": ("inv",), "C13": ("inv",), "C14": ("ord", "q"), "C15": ("rt", "q")}
+FLAG_TEXT = {"inv": "the navigation views of the tree are inconsistent", "ord": "document-order keys are not non-zero / distinct / "
+             "increasing along the walk (or a detached node has a key)", "rt": "the serialization of the edited document is not "
+             "read back as an equal document", "q": "a query on the edited document differs from the same query on a fresh parse of "
+             "its serialization"}
+
+
+def search_continuations(chk, prop, tdis, limit=6):
+    """continuations of the histories on which implementation and model part ways (implementation + monitors only)"""
+    import re
+    flags = SEARCH_FLAGS.get(prop)
+    if not flags:
+        return None
+    cands = []
+    for t, ops, i, why, a, m in tdis[:limit]:
+        if not isinstance(ops, list) or not ops or ops[0].startswith("foreign") or i <= 0:
+            continue
+        pre = list(ops[:i])
+        dump = a.split("{", 1)[1] if "{" in a else ""
+        doc_part, _, rest = dump.partition(" ~ ")
+        m_el = re.search(r"(h\d+):E\(", doc_part)
+        if not m_el:
+            continue
+        root = m_el.group(1)
+        loose = re.findall(r"(?:^| ~ )(h\d+):E\(", " ~ " + rest)
+        attrs = sorted(set(re.findall(r"(h\d+):A\(", dump)))
+        tails = [["ap:%s:%s" % (root, h)] for h in loose]
+        tails += [["ap:%s:%s" % (root, h), "rm:%s:%s" % (root, h)] for h in loose]
+        tails += [["san:%s:%s" % (root, h)] for h in attrs]
+        tails += [["san:%s:%s" % (root, h)] + ["ap:%s:%s" % (root, e) for e in loose] for h in attrs]
+        tails += [["ap:%s:%s" % (root, e) for e in loose] + ["nz:%s" % root]]
+        for tl in tails[:40]:
+            cands.append((t, pre + tl))
+    if not cands:
+        return None
+    impl = lib.run_lines(lib.build_harness(), [lib.req("dom", t, QUERIES, *ops) for t, ops in cands], timeout=900, per_line_resume=True)
+    chk.cov["search_continuations"] = len(cands)
+    for (t, ops), a in zip(cands, impl):
+        for i, x in enumerate(D.split_records(a)):
+            for fl in flags:
+                v = x["flags"].get(fl)
+                if v is not None and v not in ("ok", "skip") and "SIDE-EFFECT" not in v:
+                    if prop == "C15" and doctype_removal(v, t):
+                        continue
+                    return (t, ops, i, "(found by continuing a history on which the implementation and the model part ways) " + FLAG_TEXT[fl], v)
+    return None
 
 
 def known_panic(findings, chk, op):
